@@ -379,6 +379,16 @@ class Evaluator(object):
                 setattr(o, target.attr, value)
             else:
                 raise NotConst('attribute store')
+        elif isinstance(target, ast.Subscript) and isinstance(target.slice, ast.Slice):
+            loc_ = scope if scope is not self.env else None
+            o = self.ev(target.value, loc_)
+            if not isinstance(o, list):
+                raise NotConst('slice store')
+            lo = self.ev(target.slice.lower, loc_) if target.slice.lower else None
+            hi = self.ev(target.slice.upper, loc_) if target.slice.upper else None
+            if target.slice.step:
+                raise NotConst('slice store with step')
+            o[lo:hi] = list(value)
         elif isinstance(target, ast.Subscript):
             o = self.ev(target.value, scope if scope is not self.env else None)
             k = self.ev(target.slice, scope if scope is not self.env else None)
